@@ -352,6 +352,16 @@ def check_c04_engine(force, nodes, info):
     bad = c04.check_structure([list(x) for x in got], nodes, force.options.get("stubWidth", 1))
     if bad:
         return bad
+    # the capacity clauses at engine level: the layer width is the room between the two position bounds
+    fo = force.options
+    if fo.get("maxPos") is not None and fo.get("minPos") is not None and fo["maxPos"] > fo["minPos"] \
+            and all(k in fo for k in ("density", "algorithm")):  # (a band of width 0 is not a layer width)
+        o = {"layerWidth": fo["maxPos"] - fo["minPos"], "density": fo["density"], "nodeSpacing": fo.get("nodeSpacing", 3),
+             "algorithm": fo["algorithm"]}
+        key, reason, amb = c04.capacity_clauses([(n.idealPos, n.width) for n in nodes], [list(x) for x in got], o)
+        info["engine_capacity_clause_cases"] += 1
+        if key:
+            return (key + ":engine", "bounds [%r, %r], density %r: %s" % (fo["minPos"], fo["maxPos"], fo["density"], reason))
     if len(L) > 1:
         info["multi_layer"] += 1
     if len(L) > 2:
